@@ -25,7 +25,8 @@ RULE = ("objects of every exported class from the supported grammars: ports (5 o
         "re-parse -> render; distinct non-trivial = (class, platform, native?, spelling class, switches)"
         " Round 4: rendered text assigned to the line setter of a live object of the same class (text and data as for a new object)."
         " Round 5: lower-case nested group names."
-        " Rounds 6-7: renderings much longer than the input; the same configuration text under another platform first.")
+        " Rounds 6-7: renderings much longer than the input; the same configuration text under another platform first."
+        " Round 8: switch assigned on a live rendered object vs. an object built with it; sub-object edit then self-assignment of the text.")
 ASSUMPTIONS = ["native = a spelling the platform's own configuration uses (IOS: any/host/A W/object-group; NX-OS: any/A/len/A W/"
                "addrgroup); prefix notation on IOS is an accepted foreign spelling (two-step convergence)",
                "data() is compared without uuid; IPv4Network values compare by value"]
